@@ -270,9 +270,13 @@ impl Ctx {
 // ---------------------------------------------------------------------------
 
 static LAST_PANIC: Mutex<Option<(String, String)>> = Mutex::new(None);
+/// whether the most recent panic was raised from a source file of the code under test
+static LAST_PANIC_IN_NODE_CODE: std::sync::atomic::AtomicBool = std::sync::atomic::AtomicBool::new(false);
 
 pub fn install_panic_hook() {
     std::panic::set_hook(Box::new(|info| {
+        let in_node = info.location().map(|l| ["saito-core/src/", "saito-rust/src/", "saito-spammer/src/"].iter().any(|d| l.file().contains(d))).unwrap_or(false);
+        LAST_PANIC_IN_NODE_CODE.store(in_node, std::sync::atomic::Ordering::SeqCst);
         let site = info
             .location()
             .map(|l| {
@@ -402,7 +406,19 @@ where
             if counting {
                 *done.borrow_mut() += 1;
             }
-            let viols = check(&mut **c, &v, counting);
+            // safety net: a panic raised inside the code under test that a check did not expect at
+            // that call is reported for the generated case instead of aborting the run; a panic
+            // raised by harness code is a harness bug and propagates
+            let viols = match catch(|| check(&mut **c, &v, counting)) {
+                Outcome::Returned(x) => x,
+                Outcome::Panicked(site, msg) => {
+                    if LAST_PANIC_IN_NODE_CODE.load(std::sync::atomic::Ordering::SeqCst) {
+                        vec![(format!("{}|uncaught_panic_in_node_code|site={}", c.id, site), format!("a call into the code under test panicked at {site}: {msg}"))]
+                    } else {
+                        panic!("harness panic at {site}: {msg}");
+                    }
+                }
+            };
             let mut fresh: Vec<(String, String)> = vec![];
             for (k, w) in viols {
                 if c.is_open_known(&k) {
